@@ -51,6 +51,7 @@ def main():
     ap.add_argument('--checks', default=None)
     ap.add_argument('--tier', default='quick')
     ap.add_argument('--skip-confirm', action='store_true')
+    ap.add_argument('--confirm-only', action='store_true')
     a = ap.parse_args()
     sd = os.path.join(VERIF, 'seeded', a.name)
     meta_p = os.path.join(sd, 'meta.json')
@@ -119,6 +120,9 @@ def main():
             if rc:
                 print('patch does not apply:', out)
                 return 2
+        if a.confirm_only:
+            json.dump(meta, open(meta_p, 'w'), indent=1)
+            return 0
         # scratch copy of the framework
         sh('rsync -a --exclude .git --exclude work --exclude replays '
            '--exclude seeded %s/ %s/' % (VERIF, vc))
